@@ -506,7 +506,7 @@ def replay(case):
     case = dict((k, v) for k, v in case.items() if k != 'family')
     if fam == 'smtp':
         if case.get('kind') not in ('smtp', 'lmtp') or not isinstance(case.get('scripts'), list):
-            return []
+            return None            # not a case this check generates: cannot be replayed
         n = case.get('nrcpt', 1)
         case['nrcpt'] = max(1, min(3, int(n))) if not isinstance(n, list) else [max(1, min(3, int(x))) for x in n]
         scripts = []
@@ -518,11 +518,11 @@ def replay(case):
         return f
     if fam == 'pipe':
         if case.get('relay') not in ('pipe', 'maildrop', 'dovecot'):
-            return []
+            return None            # not a case this check generates: cannot be replayed
         try:
             bytes.fromhex(case['out']), bytes.fromhex(case['err'])
         except Exception:
-            return []
+            return None            # not a case this check generates: cannot be replayed
         st_ = int(case.get('status', 0))
         case['status'] = st_ % 256 if st_ >= 0 else -((-st_) % 32 or 9)
         case['nrcpt'] = max(1, min(3, int(case.get('nrcpt', 1))))
